@@ -142,7 +142,13 @@ def h_fit_wiring(h):
     spec = h.cfg["spec"]
     fixed_delta = h.cfg["fixed_delta"]
     data = [h.real(f"d{i}", 0.2, 9.0) for i in range(n)]
-    h.distinct(data, 0.05)
+    if h.cfg.get("ties"):
+        # tied observations (rounded data): the first two observations are the same value; ties still get the
+        # consecutive plotting positions of their ranks
+        h.distinct(data[1:], 0.05)
+        data[0] = data[1] if h.cfg["ties"] == "first" else data[n - 1]
+    else:
+        h.distinct(data, 0.05)
     omega = [h.real(f"w{i}", 0.1, 4.0) for i in range(n)] if spec.startswith("array") else None
     c = h.real("c", 0.2, 7.0) if spec == "array_scaled" else 1.0
     weights = {"none": None, "linear": "linear", "quadratic": "Quadratic", "cubic": "cubic"}.get(spec)
@@ -258,4 +264,11 @@ def obligations(tier):
                     yield ("fit_wiring", h_fit_wiring,
                            {"n": nw, "spec": spec, "fixed_delta": fixed, "method": method, "as_array": as_array},
                            {"max_paths": 5000})
+    # ties (weights that are functions of the value, so that equal observations are interchangeable)
+    for spec in ("none", "linear", "cubic"):
+        for fixed in (True, False):
+            for ties in ("first", "last"):
+                yield ("fit_wiring", h_fit_wiring,
+                       {"n": 4, "spec": spec, "fixed_delta": fixed, "method": "wlsq", "as_array": True, "ties": ties},
+                       {"max_paths": 5000})
     yield ("wlsq_error", h_wlsq_error, {"n": 3}, {})
